@@ -46,12 +46,20 @@ Print Assumptions C01_go_name_runes.
 Theorem C01_timeout_fresh : forall fuel seen name r, rename_timeout fuel seen name = Some r -> mem (ascii_lower_s r) seen = false.
 Proof. exact rename_timeout_fresh. Qed.
 Print Assumptions C01_timeout_fresh.
-(* PARTIAL: that the search always ends is proved from the point where candidates only grow; the fixed prefix of seven
-   candidates is covered by evaluation (C01_timeout_example) and by the correspondence run *)
-Theorem C01_timeout_found_partial : forall seen k name, 19 <= length name -> maxlen seen < length name + k ->
+(* ... and the search always ends, whatever the parameters are called: the candidates (six fixed names, then "operTimeout"
+   with more and more 1s) have pairwise different lower-cased names, so more of them than there are parameters cannot all
+   be taken; the model's fuel (number of parameters + 8) is therefore never exhausted *)
+Theorem C01_timeout_total : forall seen fuel, length seen < fuel -> exists r, rename_timeout fuel seen (s "timeout") = Some r.
+Proof. exact rename_timeout_total. Qed.
+Print Assumptions C01_timeout_total.
+Theorem C01_timeout_name_total : forall u params, exists r, timeout_name u params = Some r.
+Proof. exact timeout_name_total. Qed.
+Print Assumptions C01_timeout_name_total.
+(* (kept: from any name of 19 runes or more the candidates only grow) *)
+Theorem C01_timeout_found_from_long_names : forall seen k name, 19 <= length name -> maxlen seen < length name + k ->
   exists r, rename_timeout (S k) seen name = Some r.
 Proof. exact rename_timeout_long. Qed.
-Print Assumptions C01_timeout_found_partial.
+Print Assumptions C01_timeout_found_from_long_names.
 Example C01_timeout_example :
   timeout_name au [s "Timeout"; s "request-timeout"; s "x"] = Some (s "httpRequestTimeout") /\ timeout_name au [s "limit"] = Some (s "timeout").
 Proof. split; vm_compute; reflexivity. Qed.
